@@ -184,6 +184,50 @@ func checkC12(c *Check) {
 			c.Ob("R3", "predicate places pending reservations then the new one", raf.Pos(), false, "")
 		}
 	}
+	// the inventory handed on after placing a reservation carries the adjusted availability of every node
+	{
+		adj := l.Func("provider/cluster", "", "reservationAdjustInventory")
+		c.Analysed(fnName(adj))
+		n := 0
+		for _, call := range callsIn(adj, false) {
+			if calleeFull(call) != "builtin.append" || !strings.HasSuffix(call.Common().Args[0].Type().String(), "cluster/types.Node") {
+				continue
+			}
+			n++
+			el := Sym(call.Common().Args[1])
+			ok := strings.HasPrefix(el, "[cluster.NewNode(") && strings.Contains(el, "types.Node.Available(") && strings.Contains(el, "ResourceUnits.Sub(")
+			if ok {
+				// third argument: the running availability (phi over Available() and Sub results), not the node's original
+				if sl, isSl := call.Common().Args[1].(*ssa.Slice); isSl {
+					if arr, isA := sl.X.(*ssa.Alloc); isA {
+						for _, e := range arrayStores(arr) {
+							if nn, isC := stripConv(e).(*ssa.Call); isC && len(nn.Call.Args) == 3 {
+								if _, isPhi := nn.Call.Args[2].(*ssa.Phi); !isPhi {
+									ok = false
+								}
+							} else {
+								ok = false
+							}
+						}
+					}
+				}
+			}
+			c.Ob("R3", "placing a reservation hands on every node with its adjusted availability", call.Pos(), ok, "a node is carried over with its original availability after resources were placed on it: "+short(el))
+		}
+		c.Ob("R3", "the adjusted inventory is rebuilt node by node", adj.Pos(), n >= 1, "")
+		// a unit is placed only if Sub succeeded, and the count is decremented per placed unit
+		okSub := false
+		for _, call := range callsIn(adj, false) {
+			if calleeMethod(call) == "Sub" {
+				for _, rr := range *call.(*ssa.Call).Referrers() {
+					if ex, isEx := rr.(*ssa.Extract); isEx && ex.Index == 1 {
+						okSub = true
+					}
+				}
+			}
+		}
+		c.Ob("R3", "a unit counts as placed only if subtracting it from the node's availability succeeded", adj.Pos(), okSub, "")
+	}
 	// re-enable only after a successful fetch
 	{
 		var allow *ssa.Function
